@@ -43,6 +43,7 @@ def run(ctx: Context) -> None:
     # how members are combined and filters applied is BaseLoss.compute_loss's business: a loss that overrides it changes the documented definition
     ctx.rule(c08.r5_siblings)
     ctx.rule(c08.r1b_user_results)
+    ctx.rule(c08.late_binding_rule)
     ctx.rule(dtype_rule)
 
 
